@@ -401,6 +401,10 @@ func c20(w *core.World, r *core.Report) {
 	rulePolicyWiredByName(w, r)
 	r.Rule("R20.18", "the snapshot worker stops on the unit builder's error before it looks at 'skip'", 1)
 	ruleBuilderErrorBeforeSkip(w, r)
+	r.Rule("R20.19", "a snapshot worker handles an entry on its connection only after the connection was switched to the entry's database: the key-exists probe asks the entry's own database", 3)
+	ruleEntryHandledInItsDatabase(w, r)
+	r.Rule("R20.20", "bidirectional snapshot replay: no piece of the key-exists mechanism (probe, DEL, RESTORE form, memo, expiry) stands under a test that the empty key fails", 3)
+	ruleKeylessIsNotEmptyKey(w, r)
 }
 
 func pathHasSecondRestore(ev []rpEvent) bool {
